@@ -49,6 +49,16 @@ def extract():
         raise Broken("extract", info.get("item", "?"), info.get("msg", ""))
     LAST_EXTRACT.clear()
     LAST_EXTRACT.update(info)
+    # the translator for LOGIC: leaf functions of the Rust source -> Chess/Gen/Fns.lean (tools/translate.py). When it
+    # cannot parse a function it writes nothing (the last generated file stays, so the other properties still build)
+    # and the tie is broken for the properties whose theorems consume that function.
+    rc, out, err = sh([sys.executable, os.path.join(VERIF, "tools", "translate.py"), "-q"])
+    if rc != 0:
+        m = re.search(r"translate:(\S+?):? ", (err + out) + " ")
+        item = m.group(1) if m else "translator-crashed"
+        props = sorted({p for key, ps in TRANSLATED_FILES.items() if key in item for p in ps}) or sorted({p for ps in TRANSLATED_FILES.values() for p in ps})
+        info.setdefault("broken", []).append({"group": "translated leaf functions", "item": "translate:" + item,
+                                               "msg": (err + out)[-400:], "properties": props})
     return info
 
 
@@ -365,6 +375,12 @@ def changed_sources():
 
 
 LAST_EXTRACT = {}
+# which properties' theorems (Props/Cxx "Translation tie") consume the translated functions of a source file
+TRANSLATED_FILES = {
+    "gamestate.rs": ["C02", "C04", "C05"], "position.rs": ["C01", "C02", "C04", "C15"],
+    "piece.rs": ["C04", "C05", "C09", "C16"], "move_struct.rs": ["C08", "C09", "C15"],
+    "search.rs": ["C09", "C15", "C19"], "scores.rs": ["C16"],
+}
 
 
 def widen_reasons():
